@@ -196,10 +196,13 @@ class T1World(World):
     kind = "tt1"
 
     def __init__(self, sx, hr, size, prefix="", rsv=(), oldlen=0, old_lt_80=False,
-                 exact=False, symbolic_window=None, terminator=None):
+                 exact=False, symbolic_window=None, terminator=None, phys=None):
         self.sx = sx
         self.size = size
-        phys = size
+        # physical memory may be larger than the data area the capability
+        # container declares (guard bytes: the model must not enforce the
+        # end of the data area on behalf of the code)
+        phys = phys or size
         mem = [None] * phys
         mem[8:12] = [0xE1, 0x10, size // 8 - 1, 0x00]
         base = set(range(104, 120 if size == 120 else 128))
